@@ -115,6 +115,7 @@ type FuncVerifier struct {
 	rfOverride                                   *rangeFuncOverride
 	clauseCtx                                    *clauseCtx
 	rfPending                                    *rangeFuncOverride
+	funcChoices                                  map[types.Object]*funcChoice
 	noSplit                                      bool
 	inClauseHere                                 bool
 	heapSorts                                    map[string]*Sort // heap name -> reference sort
@@ -896,6 +897,22 @@ func (fv *FuncVerifier) execAssign(s *ast.AssignStmt, st *State) *State {
 						obj = fv.info().Uses[id]
 					}
 					fv.closures[obj] = &closure{lit: lit, fr: fv.frame()}
+					return st
+				}
+			}
+		}
+		// f := lo.Ternary(cond, x.m1, x.m2): a choice between two method values, resolved at the call
+		if len(s.Lhs) == 1 {
+			if fc := fv.asFuncChoice(s.Rhs[0], st); fc != nil {
+				if id, ok := s.Lhs[0].(*ast.Ident); ok {
+					obj := fv.info().Defs[id]
+					if obj == nil {
+						obj = fv.info().Uses[id]
+					}
+					if fv.funcChoices == nil {
+						fv.funcChoices = map[types.Object]*funcChoice{}
+					}
+					fv.funcChoices[obj] = fc
 					return st
 				}
 			}
@@ -2007,4 +2024,87 @@ func (fv *FuncVerifier) checkAssertsInit() {
 			reject("assert anchor %q not found in %s", ab.Anchor, fv.name)
 		}
 	}
+}
+
+// ---------------------------------------------------------------- choice between two method values
+
+// funcChoice is the value of `lo.Ternary(cond, a, b)` when a and b are method values or functions:
+// calling it calls a under cond and b otherwise.
+type funcChoice struct {
+	cond Term
+	a, b ast.Expr
+	fr   *frame
+}
+
+func (fv *FuncVerifier) asFuncChoice(e ast.Expr, st *State) *funcChoice {
+	call, ok := ast.Unparen(e).(*ast.CallExpr)
+	if !ok || len(call.Args) != 3 {
+		return nil
+	}
+	fn, ok := fv.calleeOf(call).(*types.Func)
+	if !ok || fn.Pkg() == nil || fn.Pkg().Path() != "github.com/samber/lo" || fn.Name() != "Ternary" {
+		return nil
+	}
+	if _, isFn := fv.typeOf(call).Underlying().(*types.Signature); !isFn {
+		return nil
+	}
+	for _, a := range call.Args[1:] {
+		switch x := ast.Unparen(a).(type) {
+		case *ast.SelectorExpr:
+			if _, ok := fv.info().Uses[x.Sel].(*types.Func); !ok {
+				return nil
+			}
+		case *ast.Ident:
+			if _, ok := fv.info().Uses[x].(*types.Func); !ok {
+				return nil
+			}
+		default:
+			return nil
+		}
+	}
+	cond := fv.def("choice", fv.evalCond(call.Args[0], st))
+	return &funcChoice{cond: cond, a: call.Args[1], b: call.Args[2], fr: fv.frame()}
+}
+
+// callFuncChoice executes f(args) for a funcChoice f: both alternatives on their own copy of the
+// state, merged afterwards.
+func (fv *FuncVerifier) callFuncChoice(fc *funcChoice, call *ast.CallExpr, st *State) []Term {
+	info := fv.info()
+	mk1 := func(fun ast.Expr) *ast.CallExpr {
+		c := &ast.CallExpr{Fun: fun, Lparen: call.Lparen, Args: call.Args, Ellipsis: call.Ellipsis, Rparen: call.Rparen}
+		if tv, ok := info.Types[call]; ok {
+			info.Types[c] = tv
+		}
+		return c
+	}
+	base := len(st.pc)
+	sa := st.clone()
+	sa.assume(fc.cond)
+	ra := fv.evalCall(mk1(fc.a), sa, false)
+	sb := st.clone()
+	sb.assume(not(fc.cond))
+	rb := fv.evalCall(mk1(fc.b), sb, false)
+	var tmp []*types.Var
+	for i := range ra {
+		v := types.NewVar(token.NoPos, nil, fmt.Sprintf("choiceres%d", i), types.Typ[types.Int])
+		tmp = append(tmp, v)
+		if ra[i].Sort != nil {
+			sa.vars[v] = ra[i]
+		}
+		if i < len(rb) && rb[i].Sort != nil {
+			sb.vars[v] = rb[i]
+		}
+	}
+	m := fv.mergeStates([]*State{sa, sb}, base)
+	if m == nil {
+		st.assume(boolT(false))
+		return ra
+	}
+	*st = *m
+	out := make([]Term, len(ra))
+	for i, v := range tmp {
+		out[i] = st.vars[v]
+		delete(st.vars, v)
+	}
+	return out
 }
